@@ -1027,7 +1027,7 @@ func init() {
 				for _, f := range files {
 					raw, err := os.ReadFile(f)
 					var k c19Case
-					if err == nil && json.Unmarshal(raw, &k) == nil && k.Kind != "" {
+					if err == nil && json.Unmarshal(raw, &k) == nil && (k.Kind == "counter" || k.Kind == "quota" || k.Kind == "file") {
 						cases = append(cases, k)
 					}
 				}
